@@ -74,7 +74,8 @@ def _floyd(prog, rep):
            'improved pairs (i, j) must get hops(i,k) + hops(k,j), with (i, j) enumerated from the same mask')
     rep.ob('F.next-hop-is-first-hop-towards-k', f, pm_[0] if pm_ else 'Pmat[path] = Pmat[i, k]', okp,
            'improved pairs (i, j) must take the first hop of the path i -> k (Pmat[i, k]); anything else makes the retrieved path leave the shortest route')
-    order = all(b.index(x) < b.index(upd[0]) for x in hp + pm_) and all(b.index(x) > b.index(mask[0]) for x in hp + pm_ + ij)
+    reads_len = any(isinstance(n, ast.Name) and n.id == 'SPL' for x in hp + pm_ for n in ast.walk(x))
+    order = all(b.index(x) > b.index(mask[0]) for x in hp + pm_ + ij) and (not reads_len or all(b.index(x) < b.index(upd[0]) for x in hp + pm_))
     rep.ob('F.bookkeeping-between-mask-and-length-update', f, '; '.join(norm(s) for s in b)[:160], order and bool(hp) and bool(pm_),
            'hops and next hops must be updated after the mask is taken and before (or independently of) the length update, under the same mask')
     cand = [s for s in b if isinstance(s, ast.Assign) and norm(s.targets[0]) == 'i2k_k2j']
